@@ -3,10 +3,12 @@ import TracklibVerif.Lemmas.GeoTrack
 import TracklibVerif.Lemmas.GeoLambert
 import TracklibVerif.Lemmas.GeoLambertConv
 import TracklibVerif.Lemmas.GeoHeap
+import TracklibVerif.Lemmas.GeoTrackRec
+import TracklibVerif.Lemmas.GeoHeapRec
 /-! # C14 — coordinate conversions round-trip and agree with the WGS84 ellipsoid
 
 Property theorems only (helpers: `Lemmas/Geo.lean`, `Lemmas/GeoTrack.lean`, `Lemmas/GeoLambert.lean`, `Lemmas/GeoLambertConv.lean`,
-`Lemmas/GeoHeap.lean`). They are about the model `Model/Geo.lean` (the operations of `tracklib/core/obs_coords.py` and of
+`Lemmas/GeoHeap.lean`, `Lemmas/GeoTrackRec.lean`, `Lemmas/GeoHeapRec.lean`). They are about the model `Model/Geo.lean` (the operations of `tracklib/core/obs_coords.py` and of
 `Track.to*Coords`, in the same order) and, from T12 on, about `Model/GeoHeap.lean` (the same methods called on shared,
 mutable objects: identity, aliasing, in-place updates, `Track` holding references), instantiated at `ℝ` with Mathlib's functions: `realTrig` = `Real.sin, Real.cos, Real.tan, Real.arctan, Real.sqrt, Real.log,
 Real.exp`, `pow = Real.rpow`, `atan2 y x = Complex.arg (x + i y)`, `pi = Real.pi`. Angles of `V3` values are in degrees,
@@ -127,8 +129,9 @@ theorem track_records_base (T : Trig ℝ) (t : Track ℝ) (p : V3 ℝ) (ps : Lis
 * Geo track → ENU with a `GeoCoords` base → ECEF() through the *recorded* base: exactly the direct Geo → ECEF conversion;
 * Geo track → ENU(b) → Geo, with `b` passed again, or through the recorded base when `b` is a `GeoCoords`: every position
   is its own Geo → ECEF → Geo image (T4, T5 then apply point by point).
-The case left out — an `ECEFCoords` base and the return through the recorded base — is where the recorded base is
-`ECEFCoords.toGeoCoords()` of the base used, i.e. not the same point: that is the known finding of this property. -/
+The case left out here — an `ECEFCoords` base and the return through the recorded base — is where the recorded base is
+`ECEFCoords.toGeoCoords()` of the base used: T9' (`track_round_trip_recorded_base`) covers it whenever that record denotes
+the same point, and states what the code computes otherwise (the known finding of this property). -/
 theorem track_round_trip (T : Trig ℝ) (hT : Pyth T) (t : Track ℝ) (hne : t.pts ≠ []) (b : Base ℝ) (c : V3 ℝ) :
     (t.kind = .ecef →
       (t.toENU T (some (.pt b))).bind (fun u => u.toECEF T (some (.pt b)))
@@ -333,6 +336,97 @@ theorem track_round_trip_survives_update (T : Trig ℝ) (hT : Pyth T) (w : World
       Abs w3.heap t3 ⟨.geo, pts.map (fun g => ecefToGeo T (geoToEcef T g)), some (.pt (.geo c))⟩ :=
   track_round_trip_survives_update' T hT w ti t ht pts hne ab hA b c hb j k x hj
 
+/-! ### round trips through the base the track recorded, for a base of either class; the base the library chooses -/
+
+/-- T9' Whole-track round trips whose return leg passes *no argument* (the code reads `Track.base`, the record), for a base
+of either class (T9 has this only for a `GeoCoords` base). `Track.toENUCoords(b)` converts with `b` and records
+`b.toGeoCoords()`; the point conversions read a base only through `base.toECEFCoords()`. Hence
+* (no hypothesis) ECEF track → ENU(b) → ECEF(): every position goes forth with `b` and back with the record,
+  `enuToEcef (ecefToEnu p b) (b.toGeoCoords())` — this is exactly what the code computes in the known finding;
+* if the record denotes the point that was used — `geoToEcef (b.toGeo) = b.toEcef`: every `GeoCoords` base, and an
+  `ECEFCoords` base at which the closed-form inverse is exact (`recorded_base_denotes_base_used`) — then the returns
+  through the record are exact: ECEF track → ENU(b) → ECEF() gives the positions back, → Geo() gives their direct
+  ECEF → Geo images; Geo track → ENU(b) → ECEF() / Geo() gives the direct Geo → ECEF conversion / the Geo → ECEF → Geo
+  images (T4, T5, T5' then apply point by point); and the recorded base has local coordinates (0,0,0) in the frame used.
+The hypothesis fails for an `ECEFCoords` base off the ellipsoid by Bowring's residual (about a micrometre up to 10 km):
+the listed finding of this property, and nothing else, is what is left out. -/
+theorem track_round_trip_recorded_base (T : Trig ℝ) (hT : Pyth T) (t : Track ℝ) (hne : t.pts ≠ []) (b : Base ℝ) :
+    (t.kind = .ecef →
+      (t.toENU T (some (.pt b))).bind (fun u => u.toECEF T none)
+        = .ok ⟨.ecef, t.pts.map (fun p => enuToEcef T (ecefToEnu T p b) (.geo (b.toGeo T))), some (.pt (.geo (b.toGeo T)))⟩)
+    ∧ (geoToEcef T (b.toGeo T) = b.toEcef T →
+        (t.kind = .ecef →
+          (t.toENU T (some (.pt b))).bind (fun u => u.toECEF T none) = .ok ⟨.ecef, t.pts, some (.pt (.geo (b.toGeo T)))⟩
+          ∧ (t.toENU T (some (.pt b))).bind (fun u => u.toGeo T none)
+              = .ok ⟨.geo, t.pts.map (ecefToGeo T), some (.pt (.geo (b.toGeo T)))⟩)
+        ∧ (t.kind = .geo →
+          (t.toENU T (some (.pt b))).bind (fun u => u.toECEF T none)
+              = .ok ⟨.ecef, t.pts.map (geoToEcef T), some (.pt (.geo (b.toGeo T)))⟩
+          ∧ (t.toENU T (some (.pt b))).bind (fun u => u.toGeo T none)
+              = .ok ⟨.geo, t.pts.map (fun g => ecefToGeo T (geoToEcef T g)), some (.pt (.geo (b.toGeo T)))⟩)
+        ∧ geoToEnu T (b.toGeo T) b = ⟨0, 0, 0⟩) :=
+  ⟨fun hk => track_ecef_enu_ecef_rec T t hk hne b,
+   fun hb => ⟨fun hk => ⟨track_ecef_enu_ecef_none T hT t hk hne b hb, track_ecef_enu_geo_none T hT t hk hne b hb⟩,
+              fun hk => ⟨track_geo_enu_ecef_none T hT t hk hne b hb, track_geo_enu_geo_none T hT t hk hne b hb⟩,
+              recorded_is_origin T b hb⟩⟩
+
+/-- T9'' When the hypothesis of T9' holds: for every `GeoCoords` base (any trig functions: the record is a copy), and — over
+the reals — for an `ECEFCoords` base that lies on the ellipsoid (the ECEF position of any `(lon, lat, 0)` with
+lon in (−180°, 180°], |lat| < 90°), where the closed-form inverse is exact (T5). -/
+theorem recorded_base_denotes_base_used :
+    (∀ (T : Trig ℝ) (c : V3 ℝ), geoToEcef T ((Base.geo c).toGeo T) = (Base.geo c).toEcef T)
+    ∧ (∀ c : V3 ℝ, -180 < c.x → c.x ≤ 180 → -90 < c.y → c.y < 90 → c.z = 0 →
+        geoToEcef realTrig ((Base.ecef (geoToEcef realTrig c)).toGeo realTrig)
+          = (Base.ecef (geoToEcef realTrig c)).toEcef realTrig) :=
+  ⟨fun _ _ => rfl, fun c h1 h2 h3 h4 h0 => recorded_on_ellipsoid c h1 h2 h3 h4 h0⟩
+
+/-- T8' The base the library chooses. `Track.toENUCoords()` without argument, as coded (the statement of the property does
+not fix this choice; the harness's oracle judges such a call against the recorded base only): on a non-empty Geo track the
+first observation lands on (0,0,0), the record is its position, and the returns without argument are exact in the sense
+of T9' (no hypothesis: the base is a `GeoCoords`); on a non-empty ECEF track the first observation lands on (0,0,0), the
+record is the closed-form inverse of its position, and the returns without argument are exact when that inverse is exact
+at the first position (on the ellipsoid: T9''). -/
+theorem track_default_base (T : Trig ℝ) (hT : Pyth T) (t : Track ℝ) (p : V3 ℝ) (ps : List (V3 ℝ)) (hp : t.pts = p :: ps) :
+    (t.kind = .geo →
+      (∃ qs, t.toENU T none = .ok ⟨.enu, ⟨0, 0, 0⟩ :: qs, some (.pt (.geo p))⟩)
+      ∧ (t.toENU T none).bind (fun u => u.toGeo T none)
+          = .ok ⟨.geo, t.pts.map (fun g => ecefToGeo T (geoToEcef T g)), some (.pt (.geo p))⟩
+      ∧ (t.toENU T none).bind (fun u => u.toECEF T none)
+          = .ok ⟨.ecef, t.pts.map (geoToEcef T), some (.pt (.geo p))⟩)
+    ∧ (t.kind = .ecef →
+      (∃ qs, t.toENU T none = .ok ⟨.enu, ⟨0, 0, 0⟩ :: qs, some (.pt (.geo (ecefToGeo T p)))⟩)
+      ∧ (geoToEcef T (ecefToGeo T p) = p →
+          (t.toENU T none).bind (fun u => u.toECEF T none) = .ok ⟨.ecef, t.pts, some (.pt (.geo (ecefToGeo T p)))⟩
+          ∧ (t.toENU T none).bind (fun u => u.toGeo T none)
+              = .ok ⟨.geo, t.pts.map (ecefToGeo T), some (.pt (.geo (ecefToGeo T p)))⟩)) := by
+  have hne : t.pts ≠ [] := by rw [hp]; exact List.cons_ne_nil _ _
+  refine ⟨fun hk => ?_, fun hk => ?_⟩
+  · rw [toENU_geo_none T t hk p ps hp]
+    refine ⟨⟨ps.map (fun g => geoToEnu T g (.geo p)), ?_⟩, ?_, ?_⟩
+    · rw [toENU_geo_pt T t hk hne (.geo p), hp, List.map_cons, geoToEnu_self' T p]; rfl
+    · exact track_geo_enu_geo_none T hT t hk hne (.geo p) (recorded_geo T p)
+    · exact track_geo_enu_ecef_none T hT t hk hne (.geo p) (recorded_geo T p)
+  · rw [toENU_ecef_none T t hk p ps hp]
+    refine ⟨⟨ps.map (fun q => ecefToEnu T q (.ecef p)), ?_⟩, fun hb => ⟨?_, ?_⟩⟩
+    · rw [toENU_ecef_pt T t hk hne (.ecef p), hp, List.map_cons]
+      have : ecefToEnu T p (.ecef p) = ⟨0, 0, 0⟩ := ecefToEnu_base' T (.ecef p)
+      rw [this]; rfl
+    · exact track_ecef_enu_ecef_none T hT t hk hne (.ecef p) hb
+    · exact track_ecef_enu_geo_none T hT t hk hne (.ecef p) hb
+
+/-- T17' The record of a base chosen by the library survives the caller too: a Geo track goes to ENU *without argument*
+(the base is the position object of the first observation); the caller then updates in place any object that existed
+before that conversion — that first position object in particular; the track comes back with `toGeoCoords()` and no
+argument. All three calls succeed, every position is its own Geo → ECEF → Geo image, and `Track.base` is the first position
+as it was when it was used (the record is a copy, the new positions are new objects). -/
+theorem track_default_round_trip_survives_update (T : Trig ℝ) (hT : Pyth T) (w : World ℝ) (ti : Nat) (t : HTrack)
+    (ht : w.tracks[ti]? = some t) (p : V3 ℝ) (ps : List (V3 ℝ)) (ab : Option (BaseArg ℝ))
+    (hA : Abs w.heap t ⟨.geo, p :: ps, ab⟩) (j k : Nat) (x : ℝ) (hj : j < w.heap.length) :
+    ∃ w1 w2 w3 t3, w.trackToENU T ti .none = .ok w1 ∧ w1.set j k x = .ok w2 ∧ w2.trackToGeo T ti .none = .ok w3 ∧
+      w3.tracks[ti]? = some t3 ∧
+      Abs w3.heap t3 ⟨.geo, (p :: ps).map (fun g => ecefToGeo T (geoToEcef T g)), some (.pt (.geo p))⟩ :=
+  track_default_round_trip_survives_update' T hT w ti t ht p ps ab hA j k x hj
+
 /-! ### the hypotheses are satisfiable by ordinary inputs -/
 
 /-- Notre-Dame de Paris on the ellipsoid comes back exactly through ECEF, and through the local frame of a base in Lyon
@@ -373,5 +467,24 @@ example : ∃ w1 w2 w3 t3,
 example : (⟨[⟨.geo, ⟨2.35, 48.853, 35⟩⟩], []⟩ : World ℝ).call realTrig 0 .enu [.ref 0]
     = .ok ⟨[⟨.geo, ⟨2.35, 48.853, 35⟩⟩, ⟨.enu, ⟨0, 0, 0⟩⟩], []⟩ :=
   alias_base_is_origin realTrig _ 0 _ rfl (by simp)
+
+/-- an ECEF track whose first observation lies on the ellipsoid goes to ENU without argument and comes back without
+argument, exactly (hypotheses of T8' / T9'' for the base the library chooses) -/
+example : ((⟨.ecef, [geoToEcef realTrig ⟨2.35, 48.853, 0⟩, ⟨4201010, 168020, 4780005⟩], none⟩ : Track ℝ).toENU realTrig none).bind
+      (fun u => u.toECEF realTrig none)
+    = .ok ⟨.ecef, [geoToEcef realTrig ⟨2.35, 48.853, 0⟩, ⟨4201010, 168020, 4780005⟩],
+        some (.pt (.geo (ecefToGeo realTrig (geoToEcef realTrig ⟨2.35, 48.853, 0⟩))))⟩ :=
+  (((track_default_base realTrig pyth_realTrig _ _ _ rfl).2 rfl).2
+    (recorded_base_denotes_base_used.2 ⟨2.35, 48.853, 0⟩ (by norm_num) (by norm_num) (by norm_num) (by norm_num) rfl)).1
+
+/-- a Geo track of two positions (objects 0, 1) goes to ENU without argument, the caller moves the first position object
+up to 1800 m, the track comes back (hypotheses of T17' with `j = 0`, the object the library took as base) -/
+example : ∃ w1 w2 w3 t3,
+    (⟨[⟨.geo, ⟨5.7245, 45.1885, 212⟩⟩, ⟨.geo, ⟨5.72, 45.19, 212⟩⟩], [⟨[0, 1], .none⟩]⟩ : World ℝ).trackToENU realTrig 0 .none = .ok w1
+    ∧ w1.set 0 2 1800 = .ok w2 ∧ w2.trackToGeo realTrig 0 .none = .ok w3 ∧ w3.tracks[0]? = some t3
+    ∧ Abs w3.heap t3 ⟨.geo, [⟨5.7245, 45.1885, 212⟩, ⟨5.72, 45.19, 212⟩].map (fun g => ecefToGeo realTrig (geoToEcef realTrig g)),
+        some (.pt (.geo ⟨5.7245, 45.1885, 212⟩))⟩ :=
+  track_default_round_trip_survives_update realTrig pyth_realTrig _ 0 ⟨[0, 1], .none⟩ rfl ⟨5.7245, 45.1885, 212⟩
+    [⟨5.72, 45.19, 212⟩] none ⟨⟨[⟨.geo, ⟨5.7245, 45.1885, 212⟩⟩, ⟨.geo, ⟨5.72, 45.19, 212⟩⟩], rfl, by simp, rfl⟩, rfl⟩ 0 2 1800 (by simp)
 
 end TV.C14
